@@ -75,7 +75,7 @@ theorem lookup_liveFrom : ∀ (l : List (List UInt8)) (base i : Int),
         · simp only [hp, if_true]; rw [ih, hrest]
         · simp only [hp, if_false]
           have : smLookup ((base, p) :: liveFrom (base + 1) rest) i = smLookup (liveFrom (base + 1) rest) i := by
-            simp [smLookup, List.find?_cons, hbi]
+            simp [smLookup, hbi]
           rw [this, ih, hrest]
 
 theorem liveFrom_append : ∀ (l : List (List UInt8)) (base : Int) (b : List UInt8) (p : Nat),
